@@ -96,7 +96,13 @@ def _collapse_snapshots(
     :return: collapsed sequence of snapshots
     """
     seen_names = set()  # type: Set[str]
-    collapsed = base_snapshots + snapshots
+
+    # The very same snapshot can reach a class over multiple inheritance paths (*e.g.*, in a diamond).
+    # This is not a conflict, so we keep only its first occurrence.
+    collapsed = []  # type: List[Snapshot]
+    for snap in base_snapshots + snapshots:
+        if not any(snap is another_snap for another_snap in collapsed):
+            collapsed.append(snap)
 
     for snap in collapsed:
         if snap.name in seen_names:
